@@ -967,7 +967,7 @@ def pos_key(f):
 
 DEFECTS = ['none', 'none', 'drop1', 'dropk', 'drop_volume', 'drop_position', 'duplicate', 'misfiled_dup',
            'tie_straddle', 'gap', 'gap', 'rows', 'cols', 'spacing_lo', 'spacing_hi', 'orient_lo', 'orient_hi',
-           'nopix', 'collide', 'missing_key', 'extra_position', 'vec_uneven', 'bad_ordinate', 'vec_straddle', 'vec_straddle', 'vec_straddle', 'vec_move', 'pos_swap', 'pos_swap', 'vol_count', 'vol_count', 'vol_count', 'collide_each', 'collide_each']
+           'nopix', 'collide', 'missing_key', 'extra_position', 'vec_uneven', 'bad_ordinate', 'vec_straddle', 'vec_straddle', 'vec_straddle', 'vec_move', 'pos_swap', 'pos_swap', 'vol_count', 'vol_count', 'vol_count', 'collide_each', 'collide_each', 'creep', 'creep', 'creep']
 
 
 def vec_val(cfg, key, v):
@@ -1117,6 +1117,23 @@ def apply_defect(rng, cfg, files, defect):
         if counts and cfg['vector_order'] is not None and cfg['time_order'] is not None:
             files = [f for f in files if f['cell'][1] < counts[f['cell'][2]]]
             note['counts'] = counts
+    elif defect == 'creep':
+        # a chain of files whose PixelSpacing (one entry) or orientation (an in-plane rotation, so every file stays
+        # orthonormal) creeps by c x tolerance per step, c < 1: each file is congruent with its neighbours, but
+        # the drift from the FIRST accepted file crosses the documented tolerance after a few steps.  c is chosen
+        # so that no multiple of it lies in the dead zone [0.9, 1.1] x tolerance.
+        c = rng.choice([0.8, 0.6, 0.4, 0.29])
+        what = rng.choice(['ps0', 'ps1', 'iop']) if cfg['orient'] == 'ax' else rng.choice(['ps0', 'ps1'])
+        chain = sorted(files, key=lambda f: (f['cell'][2], f['cell'][1], f['cell'][0]))
+        note.update({'c': c, 'what': what, 'order': rng.choice(['up', 'up', 'down', 'random'])})
+        for i, f in enumerate(chain):
+            if what == 'iop':
+                th = i * c * 5e-5
+                f['iop'] = [math.cos(th), math.sin(th), 0., -math.sin(th), math.cos(th), 0.]
+            else:
+                k = 0 if what == 'ps0' else 1
+                f['ps'][k] = f['ps'][k] + i * c * (5e-5 + 1e-5 * f['ps'][k])
+            f['chain'] = i
     elif defect == 'pos_swap':
         # two volumes trade slice positions: every position still occurs equally often overall and the tuples stay
         # distinct (the moved files get a fresh time value inside their own volume's range), but one volume holds
@@ -1264,9 +1281,12 @@ def vary_header_sets(rng, cfg, files):
     return note
 
 
-def add_order(rng, files):
+def add_order(rng, files, how=None):
     order = list(range(len(files)))
     rng.shuffle(order)
+    if how in ('up', 'down') and all('chain' in f for f in files):
+        order.sort(key=lambda i: files[i]['chain'], reverse=(how == 'down'))
+        return order
     for k, i in enumerate(order):
         if files[i].get('notfirst') and k == 0 and len(order) > 1:
             order[0], order[1] = order[1], order[0]
